@@ -97,8 +97,9 @@ theorem c05_reference_spine (t : Tree) (h : onePath t.err t.kids = true) :
       * `A` is not empty; only its last row shows an error, and that error is `e`;
       * the frames of the first `k ≥ 1` calls of `sp` occur among the frames of `A` in evaluation
         order, and the last row of `A` is the `k`-th of them; every other row of `A` has no
-        branches (it is a completed earlier step of the chain whose last step is the next of these
-        calls: `rowsAt` emits such a row only for a call that was continued by a chained step);
+        branches and its frame is flagged NO_PYFRAME: it is a completed earlier step of a chain
+        (a call that was continued by a chained step; the chain's last step is the next of these
+        calls) — these are the only extra rows before the call that raised;
       * no row of `B` shows `e` (rows *below* the call that raised `e`: its last sub-evaluation
         returned or was caught, and the descent through LAST_CHILD_SCOPE goes on into it, see
         `c05_last_row_counterexample`); `B` is a prefix, by frames, of what the loop produced;
@@ -117,7 +118,8 @@ theorem c05_spine_from (t : Tree) (hwf : t.wf = true) (h : Nat) (hs : startOK t.
       1 ≤ k ∧ k ≤ (spineAt t.err 1 t.root h).length ∧
       List.Sublist ((spineAt t.err 1 t.root h).take k) (A.map (·.frame)) ∧
       A.getLast?.map (·.frame) = (spineAt t.err 1 t.root h)[k - 1]? ∧
-      (∀ r, r ∈ A → r.frame ∈ (spineAt t.err 1 t.root h).take k ∨ r.branches = []) ∧
+      (∀ r, r ∈ A → r.frame ∈ (spineAt t.err 1 t.root h).take k ∨
+        (r.branches = [] ∧ (replay (events t))[r.frame]?.map (·.noPy) = some true)) ∧
       (k = (spineAt t.err 1 t.root h).length ∨
         (B = [] ∧ ∃ last h', A.getLast? = some last ∧ last.branches.getLast? = some h' ∧
           startOK t.err 1 t.root h' = true ∧
@@ -165,7 +167,12 @@ theorem c05_spine_from (t : Tree) (hwf : t.wf = true) (h : Nat) (hs : startOK t.
       simp [List.getElem?_map, hidx, (by omega : idx < A.length)] at this
       exact this
     rw [hf, hb]
-    exact hx _ (List.getElem_mem _)
+    rcases hx _ (List.getElem_mem (l := A) (by omega : idx < A.length)) with hx1 | hx1
+    · exact Or.inl hx1
+    · refine Or.inr ⟨hx1.1, ?_⟩
+      have hrg := isStep_range t.root 1 _ hx1.2
+      rw [(c05_frames t hc).2.2 _ hrg.1]
+      exact frameAt_noPy t.root 0 none 1 _ hx1.2
   · rcases h9 with h9 | ⟨hB, last, h', hl, hm, hn⟩
     · exact Or.inl h9
     · refine Or.inr ⟨?_, last, h', by rw [hlast]; exact hl, hm, hn.1, hn.2⟩
@@ -184,7 +191,8 @@ theorem c05_spine (t : Tree) (hwf : t.wf = true) :
       1 ≤ k ∧ k ≤ (spine (callsOf (events t)) t.err).length ∧
       List.Sublist (((spine (callsOf (events t)) t.err).map (·.idx)).take k) (A.map (·.frame)) ∧
       A.getLast?.map (·.frame) = ((spine (callsOf (events t)) t.err).map (·.idx))[k - 1]? ∧
-      (∀ r, r ∈ A → r.frame ∈ ((spine (callsOf (events t)) t.err).map (·.idx)).take k ∨ r.branches = []) ∧
+      (∀ r, r ∈ A → r.frame ∈ ((spine (callsOf (events t)) t.err).map (·.idx)).take k ∨
+        (r.branches = [] ∧ (replay (events t))[r.frame]?.map (·.noPy) = some true)) ∧
       (k = (spine (callsOf (events t)) t.err).length ∨
         (B = [] ∧ ∃ last h', A.getLast? = some last ∧ last.branches.getLast? = some h' ∧
           startOK t.err 1 t.root h' = true ∧
